@@ -22,6 +22,8 @@ type CheckCfg struct {
 	PaperSteps    []string          `json:"paper_steps"`
 	Assumptions   []string          `json:"assumptions"`
 	MinObligations int              `json:"min_obligations"`
+	ClaimOnly     map[string][]string `json:"claim_only"` // function name -> obligation-name fragments; other obligations of that function are generated but not claimed
+	ClaimOnlyWhy  string              `json:"claim_only_reason"`
 	ExpectedUnreachable map[string]string `json:"expected_unreachable"` // return points the contracts make unreachable on the unchanged tree -> why
 	Bounded       []BoundedCfg      `json:"bounded"`
 }
